@@ -48,6 +48,9 @@ package index
 //@   ensures def: (err == nil) == byDg(ii, digestof(mhof(c)))
 
 //@ func (*InsertionIndex).Load
+//@   ghost at entry: mark(ii) := 0
+//@   ghost after call[LLRB.InsertNoReplace#*]: mark(ii) := mark(ii) + 1
+//@   loop[0] step one_insert_per_record [C03,C07,C11]: mark(ii) == athead(0, mark(ii)) + 1
 //@   let rec0, rderr := call[newRecordDigest#0]
 //@   call[fmt.Errorf#0] assert refuses_only_an_undecodable_record [C03,C11]: rderr != nil
 //@   call[fmt.Errorf#1] assert refuses_only_a_record_without_a_digest [C03,C11]: rderr == nil && rec.digest == nil
@@ -162,6 +165,9 @@ package index
 //@   end
 
 //@ func (*InsertionIndex).GetAll
+//@   ghost at entry: mark(ii) := 0
+//@   ghost after call[LLRB.AscendGreaterOrEqual#*]: mark(ii) := mark(ii) + 1
+//@   check offers_each_candidate_once [C04,C07]: mark(ii) <= 1
 //@   ensures notfound_iff_no_candidate [C04,C07]: (err == ErrNotFound) == !cur(any) || err != ErrNotFound && err != nil
 //@   closure[0]
 //@     assume tree_holds_record_digests: typeis(i, "v2/index.recordDigest")
@@ -254,6 +260,9 @@ package index
 //@   end
 
 //@ func (*InsertionIndex).Flatten
+//@   ghost at entry: mark(ii) := 0
+//@   ghost after call[LLRB.AscendGreaterOrEqual#*]: mark(ii) := mark(ii) + 1
+//@   check copies_each_record_once [C05,C11]: mark(ii) <= 1
 //@   let si, nerr := call[New#0]
 //@   call[New#0] assert requested_codec [C05,C11]: arg0 == codec
 //@   call[Index.Load#0] assert into_the_new_index [C05,C11]: ref(arg0) == ref(si)
@@ -377,6 +386,9 @@ package index
 //@   call[singleWidthIndex.getAll#0] assert the_keys_digest_and_callback [C03,C07]: ref(arg1) == ref(d.Digest) && arg2 == fn
 
 //@ func (*InsertionIndex).Marshal
+//@   ghost at entry: mark(ii) := 0
+//@   ghost after call[LLRB.AscendGreaterOrEqual#*]: mark(ii) := mark(ii) + 1
+//@   check writes_each_record_once [C11]: mark(ii) <= 1
 //@   check returns_what_the_walk_recorded [C11,C16]: executed("LLRB.AscendGreaterOrEqual#0") ==> err == cur(err__2)
 //@   implements (github.com/ipld/go-car/v2/index.Index).Marshal
 //@   modifies wn(w)
@@ -397,7 +409,7 @@ package index
 
 //@ func (*InsertionIndex).Unmarshal
 //@   ghost at entry: mark(ii) := 0
-//@   ghost after call[LLRB.InsertNoReplace#0]: mark(ii) := mark(ii) + 1
+//@   ghost after call[LLRB.InsertNoReplace#*]: mark(ii) := mark(ii) + 1
 //@   loop[0] invariant one_record_per_iteration [C11]: mark(ii) == i
 //@   loop[0] invariant within_the_declared_count [C11]: 0 <= i && (length >= 0 ==> i <= length)
 //@   check reads_exactly_the_declared_records [C11]: err == nil && length >= 0 ==> mark(ii) == length
@@ -408,6 +420,9 @@ package index
 //@   loop[0] step one_record_per_iteration [C11]: i == athead(0, i) + 1
 
 //@ func (*InsertionIndex).ForEach
+//@   ghost at entry: mark(ii) := 0
+//@   ghost after call[LLRB.AscendGreaterOrEqual#*]: mark(ii) := mark(ii) + 1
+//@   check yields_each_record_once [C11]: mark(ii) == 1
 //@   check returns_what_the_walk_recorded [C11,C16]: err == cur(err)
 //@   closure[0]
 //@     assume tree_holds_record_digests: typeis(i, "v2/index.recordDigest")
@@ -417,6 +432,9 @@ package index
 //@   end
 
 //@ func (*InsertionIndex).ForEachCid
+//@   ghost at entry: mark(ii) := 0
+//@   ghost after call[LLRB.AscendGreaterOrEqual#*]: mark(ii) := mark(ii) + 1
+//@   check yields_each_record_once [C07,C11]: mark(ii) == 1
 //@   check returns_what_the_walk_recorded [C07,C11]: err == cur(err)
 //@   closure[0]
 //@     assume tree_holds_record_digests: typeis(i, "v2/index.recordDigest")
